@@ -27,6 +27,9 @@ int main(int argc, char **argv){
     double sc = 50.0 * (2.0 + np);
     bool interp = !(gc.isGlobal() && OneDimensionalMeta::isNonNested(gc.getRule())) && (!gc.isLocalPolynomial() || lpParentComplete(gc));
     for (int i=0;i<np;i++){
+      // compactly supported bases: a node on the boundary of the domain is where the support ends; the iterative inverse of the conformal map returns it only up to
+      // rounding, so the surrogate there may legitimately be the value from outside the support (zero) - boundary nodes are not claimed for these families
+      if (gc.isLocalPolynomial() || gc.isWavelet()){ bool edge = false; for (int j=0;j<d;j++) if (std::fabs(std::fabs(pc[(size_t) i * d + j]) - 1.0) < 1e-12) edge = true; if (edge) continue; }
       // forward then inverse map: evaluating at a returned point lands on the node again
       std::vector<double> yb, yc; gb.evaluate(pointAt(pb, d, i), yb); gc.evaluate(pointAt(pc, d, i), yc);
       for (int k=0;k<outs;k++){ fpsym_eq(yb[k], yc[k], sc, "conformal + linear: evaluate at a point of getPoints() equals the conformal-only grid at its point (forward and inverse maps are mutual inverses)");
@@ -41,6 +44,12 @@ int main(int argc, char **argv){
     double f = 1.0; for (int j=0;j<d;j++) f *= jacf ? std::pow(0.5 * (tb[j] - ta[j]), al2 + be2 + 1.0) : 0.5 * (tb[j] - ta[j]);   // the documented factor of the rule family
     bool wok = wc.size() == wb.size(); for (size_t i=0;i<wc.size() && wok;i++) if (std::fabs(wb[i] - wc[i] * f) > 1e-10 * (1.0 + std::fabs(wc[i] * f))) wok = false;
     fpsym_check(wok, "conformal + linear: quadrature weights are the conformal-only weights times the volume factor");
+    { // integrate() of both grids against their own weights and the loaded values (each family has its own copy of the conformal branch)
+      std::vector<double> qb, qc; gb.integrate(qb); gc.integrate(qc); double wabs = 2.0; for (double w : wb) wabs += std::fabs(w);
+      for (int k=0;k<outs;k++){ double sb = 0, s0 = 0; for (int i=0;i<np;i++){ sb += wb[i] * vals[(size_t) i * outs + k]; s0 += wc[i] * vals[(size_t) i * outs + k]; }
+        fpsym_eq(qb[k], sb, wabs * 4.0, "conformal + linear: integrate() equals the grid's quadrature weights times the loaded values");
+        fpsym_eq(qc[k], s0, wabs * 4.0, "conformal map alone: integrate() equals the grid's quadrature weights times the loaded values"); }
+    }
     if (model.symbolic) fpsym_nonconst(vals[0], "witness: values are symbolic");
     fpsym_finish(); return 0;
   }
